@@ -637,6 +637,37 @@ def resolve_traces(seed=0, n=8):
     return heads, bad
 
 
+def native_plumbing_values():
+    """native replay for the evaluation loop: on the real classes (contributions = symbolic atoms per class) every requested component's isothermal AND adiabatic term equals
+    the term it gets when requested alone -- reduced key lists with the shear key last / first, isotropic and generic strain fields"""
+    try:
+        keys = tasks_env.all_keys()
+        from cij.util import c_
+        rnd = random.Random(4)
+        reqs = [[c_(1, 1), c_(1, 2), c_(4, 4)], [c_(4, 4), c_(1, 1), c_(1, 2)], [c_(2, 2), c_(2, 5)], [c_(1, 2), c_(4, 4)], [c_(1, 1), c_(1, 4)], [c_(6, 6), c_(3, 3), c_(1, 3), c_(5, 6)]]
+        reqs += [rnd.sample(keys, rnd.randint(2, 7)) for _ in range(6)]
+        fields = [[[1 / 3, 1 / 3, 1 / 3]], [[0.2, 0.3, 0.5], [0.25, 0.35, 0.4]], [[0.25, 0.25, 0.5]]]
+        alone = {}
+        n = 0
+        for fi, strain in enumerate(fields):
+            for req in reqs:
+                tl, iso, adi = tasks_env.run_tasks(strain, req)
+                for k in req:
+                    if (fi, k) not in alone:
+                        _, i1, a1 = tasks_env.run_tasks(strain, [k])
+                        alone[(fi, k)] = (str(z3.simplify(symnp.term(numpy.ravel(i1[k])[0]))), str(z3.simplify(symnp.term(numpy.ravel(a1[k])[0]))))
+                    got = (str(z3.simplify(symnp.term(numpy.ravel(iso[k])[0]))), str(z3.simplify(symnp.term(numpy.ravel(adi[k])[0]))))
+                    n += 1
+                    if got != alone[(fi, k)]:
+                        which = "isothermal" if got[0] != alone[(fi, k)][0] else "adiabatic"
+                        return {"reproduced": True, "strain_field": strain, "request": [repr(x) for x in req], "component": repr(k),
+                                "observed": "%s value in this request: %s" % (which, got[0 if which == "isothermal" else 1][:200]),
+                                "expected": "as when requested alone: %s" % alone[(fi, k)][0 if which == "isothermal" else 1][:200]}
+    except Exception as e:
+        return {"reproduced": True, "raised": repr(e)[:300]}
+    return {"reproduced": False, "evaluations": n, "note": "%d (strain field, request, component) cases on the real scheduler: isothermal and adiabatic terms equal those of the singleton request" % n}
+
+
 def native_plumbing_small():
     """native replay for the scheduler: small request lists in several orders on the real classes (stubbed contributions): every request answered, dependencies first"""
     try:
@@ -855,7 +886,7 @@ def run(s):
     s.oblige("C04.calculate_and_results.loop_rule(all task lists)", calculate_ob, [T + "PhononContributionTaskList.calculate", T + "PhononContributionTaskList.get_isothermal_results",
                                                                                  T + "PhononContributionTaskList.get_adiabatic_results", T + "PhononContributionTaskResults.get_results_by_strain_keys",
                                                                                  T + "PhononContributionTaskResults.__getitem__", T + "PhononContributionTaskResults.__setitem__"],
-             fallback=native_plumbing_small)
+             fallback=lambda: (lambda a, b: a if a.get("reproduced") else b)(native_plumbing_small(), native_plumbing_values()))
     s.oblige("C04.dependencies_are_the_two_key_groups", dependency_groups, [T + "PhononContributionTask.get_dependencies"], kind="finite")
 
     # the isotropy / covariance lemmas above ASSUME the C01 contract of the non-shear classes (prefactors 1/(5 e_i e_j), 1/(15 e_i e_j), 1/(3 e); which strain
